@@ -419,6 +419,11 @@ def delitem(I, obj, idx):
         except IndexError:
             raise PyExc('IndexError')
         return
+    if isinstance(obj, Ref) and obj.kind == 'clist' and isinstance(idx, slice) and \
+            all(x is None or isinstance(x, int) for x in (idx.start, idx.stop, idx.step)):
+        I.st.note_write(obj)
+        del I.st.heap[obj][idx]
+        return
     raise Unsupported('del item')
 
 
@@ -1119,6 +1124,8 @@ def container_method(I, obj, name):
                 st.heap[obj] = {'len': z3.simplify(ln + 1), 'arr': narr, 'ek': ek}
                 return None
             return B(ins)
+        if name in ('tolist', 'T', 'shape', 'astype', 'sum', 'max', 'min', 'any', 'all', 'ravel', 'flatten', 'mean', 'ndim') and not obj.nd:
+            raise PyExc('AttributeError', name)
         if name == 'copy':
             return B(lambda I_, a, k: snapshot_copy(I_, obj))
         if name == 'tolist':
